@@ -222,7 +222,10 @@ def _getTextType(text, log=None):
     """Check if given text is XML (**naive test!**)
     used if no content-type given
     """
-    if text[:30].find('<?xml version=') != -1:
+    head = text[:30]
+    if isinstance(head, bytes):
+        head = head.decode('latin-1')
+    if re.search(r'<\?xml\s+version\s*=', head):
         return _XML_APPLICATION_TYPE
     else:
         return _OTHER_TYPE
